@@ -521,3 +521,37 @@ func isRecvFieldLoad(v ssa.Value, recv ssa.Value) bool {
 	_, _, base, ok := fieldOf(u.X)
 	return ok && stripConv(base) == recv
 }
+
+// checkAppendUsesSnapshot: a method of a memmetrics type that takes another object of the same type as a
+// parameter reads it only through that object's own exported methods (which take its locks / clean it up),
+// never through its fields: RTMetrics.Append works on other.Export(), and merging other.histogram directly
+// reads a live histogram under the wrong instance's lock.
+func checkAppendUsesSnapshot(p *Prog, r *Report, rule string) int {
+	rt := p.Named("memmetrics", "RTMetrics")
+	if rt == nil {
+		return 0
+	}
+	n := 0
+	for _, fn := range p.Methods(rt) {
+		if fn.Blocks == nil {
+			continue
+		}
+		for i, par := range fn.Params {
+			if i == 0 || derefNamed(par.Type()) != rt {
+				continue
+			}
+			n++
+			r.Fn(FName(fn))
+			var bad ssa.Instruction
+			for _, b := range fn.Blocks {
+				for _, in := range b.Instrs {
+					if fa, ok := in.(*ssa.FieldAddr); ok && stripConv(fa.X) == ssa.Value(par) {
+						bad = in
+					}
+				}
+			}
+			r.Check(bad == nil, rule, FName(fn)+": the other collector is read through its snapshot only", p.FuncPos(fn), "no field of the parameter is accessed", "a field of the other collector is read directly"+atInstr(p, bad)+": it is still being recorded into, under ITS locks, while this method holds only its own")
+		}
+	}
+	return n
+}
